@@ -305,7 +305,7 @@ impl Property for C09 {
         ]
     }
     fn cases(&self, tier: Tier) -> u64 {
-        tier.pick(800_000, 8_000_000)
+        tier.pick(2_400_000, 16_000_000)
     }
     fn enumerate(&self, _tier: Tier) -> Vec<Case> {
         battery().into_iter().map(|s| Case::Raw { s }).collect()
